@@ -154,6 +154,6 @@ contract(
                            "all(source_bytes[k] == 32 or source_bytes[k] == 9 for k in range(newline_index + 1, cursor))"],
                 decreases="end - cursor"),
     },
-    domain=dict(alphabet=["\n", " ", "\t", "a", "\r"], max_len=5, max_len_thorough=6, ints=[0, 1, 2, 3, 4, 5]),
+    domain=dict(alphabet=["\n", " ", "\t", "a"], max_len=4, max_len_thorough=5, ints=[0, 1, 2, 3, 4]),
     props=["C20", "C02", "C06"],
 )
